@@ -10,6 +10,7 @@ import gen
 from common import Outcome, np, rng_for
 from props.c14 import snap, snap_val, res_key
 
+RULE_ADDENDA = ('path forms (absolute, bare file name, relative with a directory); structural comparison of everything the loaded object holds; detectors saved after compare calls')
 LEVEL = "other"
 EXPLANATION = ("pickle itself cannot be modelled; the property is expressed over the model as 'saveload is the identity on model states' (immediate) and the decision logic "
                "of save() is proved in Lean (type test before protocol test before opening the file). The weight is on this run: at sampled prefix lengths of generated "
